@@ -1140,8 +1140,9 @@ Proof. vm_compute. auto. Qed.
 (* A single binary message of 130 bytes and nothing after it.  The transport hands out the 8
    header bytes, then the 130 payload bytes TOGETHER with io.EOF.  A Read with a buffer of 200
    bytes bypasses the (empty) 125-byte bufio buffer: it returns all 130 bytes AND io.EOF in the
-   same call -- not "bytes with a nil error" -- and the next Read on the same reader returns
-   the 1006 "unexpected EOF" error instead of io.EOF.  So without that hypothesis the per-read
+   same call -- not "bytes with a nil error" (a legal io.Reader behaviour); the next Read on the
+   same reader returns io.EOF again.  (Before the repair recorded in KNOWN_FINDINGS it returned
+   the 1006 "unexpected EOF" error there.)  So without that hypothesis the per-read
    specification [reads_ok] does not hold (the bytes delivered are still exactly the message). *)
 Definition cx_payload : bytes := repeat 65 130.
 Definition cx_fs : list frame := [mkf true 2 0 (Some k1) cx_payload].
@@ -1155,7 +1156,7 @@ Example glued_eof_counterexample :
   data_msgs (events_of cx_fs) = [(2, false, cx_payload)] /\
   (forall outs s', run_ops (fun _ => None) ex_cfg (init_rst cx_b) (ONext :: map ORead [200;200]%nat)
                    = (RNext 2 None :: outs, s') ->
-     outs = [RData cx_payload (Some RIoEOF); RData [] (Some unexpected_eof)] /\
+     outs = [RData cx_payload (Some RIoEOF); RData [] (Some RIoEOF)] /\
      ~ reads_ok cx_payload [200;200]%nat outs).
 Proof.
   split.
@@ -1169,7 +1170,7 @@ Proof.
   split; [cbn [cx_b mk_bufio bsize]; lia|].
   split; [vm_compute; reflexivity|]. split; [vm_compute; reflexivity|]. split; [vm_compute; reflexivity|].
   intros outs s' H.
-  assert (Ho : outs = [RData cx_payload (Some RIoEOF); RData [] (Some unexpected_eof)]).
+  assert (Ho : outs = [RData cx_payload (Some RIoEOF); RData [] (Some RIoEOF)]).
   { apply (f_equal fst) in H. cbn [fst] in H. vm_compute in H. inversion H. vm_compute. reflexivity. }
   split; [exact Ho|]. rewrite Ho. cbn [reads_ok]. intros (_ & H2 & _).
   destruct H2 as (H2 & _); [vm_compute; discriminate|discriminate H2].
